@@ -53,3 +53,79 @@ PROPS = {
         "assumptions": COMMON_ASSUME,
     },
 }
+
+PROPS.update({
+    "C01": {
+        "level": "exploration",
+        "rule": "random well-formed maps (regular via raw constructor / builder / decoded reference document, Hermes, index maps nested up to 3 deep) driven through write -> read -> observe; non-trivial = map with >= 2 tokens or index with >= 1 section; distinct by hash of the abstract model",
+        "steps": [MAIN, asan(scale=5)],
+        "required_buckets": {"all": ["built:regular:raw-constructor", "built:regular:builder", "built:regular:decoded", "built:hermes:decoded",
+                                     "built:index:constructed", "built:index:decoded", "nested-index", "section-with-url-only",
+                                     "map-with-sourceless-token", "map-with-exact-duplicate", "map-with-multi-line-gap", "map-with-root",
+                                     "map-with-partial-contents", "map-with-debug-id", "map-with-ignore-list",
+                                     "map-with-distinct-tokens-at-one-position", "map-with-unreferenced-source",
+                                     "map-with-duplicate-source-strings"]},
+        "assumptions": COMMON_ASSUME + ["observational equality is defined through public accessors only (harness/src/observe.rs)"],
+    },
+    "C02": {
+        "level": "exploration",
+        "rule": "documents written by the independent encoder from an abstract model plus presentation (segment order, empty lines/segments, arity 1/4/5, key order, optional keys, null sources, integer names, both debug-id spellings, junk header; regular / Hermes / index); non-trivial = at least one non-empty segment or embedded section map; distinct by hash of the document text",
+        "steps": [MAIN, asan(scale=5), miri(tiers=("thorough",), nshards=16)],
+        "required_buckets": {"all": ["negative-delta:generated-column", "negative-delta:source-index", "negative-delta:original-line",
+                                     "negative-delta:original-column", "negative-delta:name-index", "empty-line", "empty-segment",
+                                     "arity-1", "arity-4", "arity-5", "key-absent:sources", "key-absent:names", "key-absent:mappings",
+                                     "key-absent:file", "both-debug-ids", "only-debugId", "null-source", "integer-name", "junk-header",
+                                     "kind:Regular", "kind:Hermes", "kind:Index", "root(plain)xsource(relative)", "root(plain)xsource(absolute)",
+                                     "root(slash)xsource(relative)", "root(empty)xsource(relative)", "from_slice-rejects-other-kind"]},
+        "assumptions": COMMON_ASSUME,
+    },
+    "C03": {
+        "level": "exploration",
+        "rule": "random well-formed maps from every producer (constructors, builder, decoding, rewrite under random options, flatten, adjust_mappings; index maps nested up to 3); serialised output parsed by serde_json and its mappings read by the strict reference decoder; non-trivial = >= 2 tokens (or >= 1 section); distinct by hash of the generating model",
+        "steps": [MAIN, asan(scale=5)],
+        "required_buckets": {"all": ["producer:rewrite", "producer:flatten", "producer:adjust_mappings", "producer:regular:builder",
+                                     "producer:regular:decoded", "producer:regular:raw-constructor", "producer:hermes:decoded",
+                                     "producer:index:constructed", "index-with-nested-index", "map-with-every-optional-absent",
+                                     "map-with-every-optional-present"]},
+        "assumptions": COMMON_ASSUME,
+    },
+    "C04": {
+        "level": "exploration",
+        "rule": "maps with heavy position duplication, built in shuffled order by both constructors; query sweep = every token position +-1 column, column 0 / u32::MAX on every line with or without tokens, lines before/after; histories = chains of 1..8 map-producing operations with the invariants re-checked after each; exhaustive sub-space: every insertion sequence of <= 4 tokens on a 2x3 grid x all grid queries; non-trivial = map with >= 2 tokens; distinct by model hash / enumeration",
+        "exhaustive_claim": True,
+        "steps": [MAIN, fast(), asan(scale=10)],
+        "required_buckets": {"all": ["lookup:exact-hit-on-position-with>=3-copies", "lookup:before-first-token->None", "lookup:from-later-line",
+                                     "lookup:u32::MAX-query", "lookup:inexact-hit", "producer:rewrite", "producer:flatten",
+                                     "producer:adjust_mappings", "producer:to_writer+decode_slice", "producer:builder",
+                                     "producer:SourceMap::new", "empty-map", "single-token-map"]},
+        "assumptions": COMMON_ASSUME + ["the oracle is a linear scan over the map's own iteration order"],
+    },
+    "C06": {
+        "level": "fault_enumeration",
+        "rule": "well-formed base documents (arrays of size 0..4) x single faults enumerated at every site: arity 2/3/6/7 per segment, continuation bit on the last digit per segment, 14/15/20-digit value per value, source/name index pushed to len, len+1, 2^32-1, -1, -len-1, 2^32+k per reference, one foreign byte at every offset of the mappings string (all byte values possible in UTF-8), plus random 2-3 fault combinations; a faulted string counts only if the strict reference decoder rejects it; distinct by hash of (mappings, array sizes)",
+        "steps": [MAIN, asan(scale=10)],
+        "required_buckets": {"all": ["fault:arity-2@First", "fault:arity-3@Middle", "fault:arity-6@Last", "fault:arity-7@Only",
+                                     "fault:continuation-on-last-digit@Last", "fault:value-with-14-digits@Middle",
+                                     "fault:value-with-20-digits@First", "fault:source-index=len:first-use@First",
+                                     "fault:source-index=-1:later-use@Middle", "fault:source-index=2^32-1:after-decrease@Middle",
+                                     "fault:source-index=2^32+k:later-use@Last", "fault:name-index=len@Last", "fault:name-index=-1@Middle",
+                                     "fault:foreign-ascii@segment-start", "fault:foreign-ascii@segment-middle", "fault:foreign-ascii@segment-end",
+                                     "fault:foreign-byte>=0x80@segment-middle", "fault:foreign-byte>=0x80@alone-in-segment",
+                                     "fault:reference-into-empty-sources", "fault:reference-into-empty-names", "fault:combination"]},
+        "assumptions": COMMON_ASSUME + ["byte values 0xC0, 0xC1, 0xF5..0xFF cannot occur in a Rust str / valid JSON string and are not covered"],
+    },
+    "C07": {
+        "level": "exploration",
+        "rule": "maps with range flags: every flag subset of every shape with <= 3 lines, <= 6 tokens per line, <= 8 (quick) / 10 (thorough) tokens; explicit shapes (first/last on line, index 15..100, all set, after k duplicates / k same-position tokens, columns near u32::MAX); random maps; each built three ways, serialised, re-read, and swept with lookups on the token's line, after it and from later lines; non-trivial = >= 1 range token; distinct by model hash",
+        "exhaustive_claim": True,
+        "steps": [MAIN, fast(scale=50), asan(scale=10),
+                  miri(flags="-Zmiri-disable-isolation -Zmiri-tree-borrows", tiers=("thorough",))],
+        "required_buckets": {"all": ["range:first-on-line(line>0)", "range:first-on-line(line=0)", "range:last-on-line",
+                                     "range:index>=16-with-no-earlier-flag-on-line", "range:exact-duplicate-of-predecessor",
+                                     "range:after-distinct-token-at-same-position", "lookup:inside-range-same-line",
+                                     "lookup:range-token-from-later-line(col<dst_col)", "lookup:range-token-from-later-line(col>=dst_col)",
+                                     "lookup:non-range-token", "built:decoded-reference-document"]},
+        "assumptions": COMMON_ASSUME + ["bit i of a line's rangeMappings refers to the i-th mapping written for that line (tc39 proposal)",
+                                         "Miri shards run under Tree Borrows because Stacked Borrows flags bitvec 1.1.1 internals (dependency, not the crate)"],
+    },
+})
